@@ -46,7 +46,7 @@ theorem inv_init (t : List Char) : Inv t (initLex t) := by
     | cons c cs =>
       simp only [initLex]
       by_cases h : c = '\n'
-      · subst h; simp [PosAt, lineOf, colOf]
+      · subst h; simp [PosAt, lineOf]
       · have : (c == '\n') = false := by simpa using h
         simp [this, PosAt, h, lineOf, colOf]
 
